@@ -417,9 +417,11 @@ func (x *Exec) sprintf(st *State, args []*Val, pos token.Pos) *Val {
 	argi := 0
 	i := 0
 	lit := ""
+	var pieces []fmtPiece
 	flush := func() {
 		if lit != "" {
 			out = x.strConcat(st, out, StrLit(lit))
+			pieces = append(pieces, fmtPiece{lit: lit})
 			lit = ""
 		}
 	}
@@ -455,17 +457,140 @@ func (x *Exec) sprintf(st *State, args []*Val, pos token.Pos) *Val {
 		case 's':
 			piece = x.unbox(ifRef(a), strT)
 			x.assumeType(st, piece, strT)
+			pieces = append(pieces, fmtPiece{verb: 's', flags: flags, str: piece, arg: piece})
 		case 'd':
 			v := x.unbox(ifRef(a), intT)
 			piece = x.fmtInt(st, v, flags)
+			pieces = append(pieces, fmtPiece{verb: 'd', flags: flags, str: piece, arg: v})
 		default:
 			piece = UF("fmt.verb."+string(verb)+"."+sanitize(flags), SStr, a)
 			x.assumeType(st, piece, strT)
+			pieces = append(pieces, fmtPiece{verb: verb, flags: flags, str: piece, arg: piece})
 		}
 		out = x.strConcat(st, out, piece)
 	}
 	flush()
+	x.alignWithPatterns(st, format, pieces, out)
 	return &Val{T: out, Typ: strT}
+}
+
+type fmtPiece struct {
+	lit   string // literal text (verb == 0)
+	verb  byte   // 's' or 'd'
+	flags string
+	str   *Term // formatted piece
+	arg   *Term // the argument (Str for %s, Int for %d)
+}
+
+// alignWithPatterns: A-CODEC, formatting half. If the format string lines up with one of the package's anchored
+// patterns (literal text against literal text, each verb against one capture group), then under the side conditions
+// that each argument lies in its group's language the result matches the pattern and the groups are the pieces.
+func (x *Exec) alignWithPatterns(st *State, format string, pieces []fmtPiece, out *Term) {
+	for key, init := range x.prog.globInit {
+		pat, ok := patternOfInit(init)
+		if !ok {
+			continue
+		}
+		re, err := syntax.Parse(pat, syntax.Perl)
+		if err != nil || re.Op != syntax.OpConcat {
+			continue
+		}
+		subs := re.Sub
+		if len(subs) < 2 || subs[0].Op != syntax.OpBeginText || subs[len(subs)-1].Op != syntax.OpEndText {
+			continue
+		}
+		subs = subs[1 : len(subs)-1]
+		ri := &RegexInfo{Name: key, Pattern: pat}
+		var conds []*Term
+		var eqs []*Term
+		pi := 0
+		okAlign := true
+		// merge adjacent literal pieces
+		var ps []fmtPiece
+		for _, p := range pieces {
+			if p.verb == 0 && len(ps) > 0 && ps[len(ps)-1].verb == 0 {
+				ps[len(ps)-1].lit += p.lit
+			} else {
+				ps = append(ps, p)
+			}
+		}
+		for _, el := range subs {
+			if pi >= len(ps) {
+				okAlign = false
+				break
+			}
+			p := ps[pi]
+			switch {
+			case el.Op == syntax.OpLiteral:
+				if p.verb != 0 || p.lit != string(el.Rune) {
+					okAlign = false
+				}
+				pi++
+			case el.Op == syntax.OpCharClass && p.verb == 's':
+				// a separator class such as [-/] filled by a %s argument
+				var alts []*Term
+				for i := 0; i+1 < len(el.Rune); i += 2 {
+					for c := el.Rune[i]; c <= el.Rune[i+1] && len(alts) < 8; c++ {
+						alts = append(alts, strEqLit(p.arg, string(c)))
+					}
+				}
+				conds = append(conds, Or(alts...))
+				pi++
+			case el.Op == syntax.OpCapture || (el.Op == syntax.OpQuest && el.Sub[0].Op == syntax.OpCapture):
+				optional := el.Op == syntax.OpQuest
+				cap := el
+				if optional {
+					cap = el.Sub[0]
+				}
+				gc := &groupClass{optional: optional}
+				classifyBody(cap.Sub[0], gc)
+				g := reGroup(ri, out, cap.Cap)
+				switch {
+				case p.verb == 's' && gc.lits != nil:
+					var alts []*Term
+					if optional {
+						alts = append(alts, strEqLit(p.arg, ""))
+					}
+					for _, l := range gc.lits {
+						alts = append(alts, strEqLit(p.arg, l))
+					}
+					conds = append(conds, Or(alts...))
+					eqs = append(eqs, x.strEqual(st, g, p.arg))
+				case p.verb == 'd' && gc.digits && !optional:
+					// the number must print with a digit count inside the group's bounds
+					lo, hi := gc.min, gc.max
+					width := 0
+					fmt.Sscanf(strings.TrimLeft(p.flags, "0"), "%d", &width)
+					if strings.HasPrefix(p.flags, "0") && width > lo {
+						lo = width
+					}
+					c := Ge(p.arg, IntLit(0))
+					if hi >= 0 && hi <= 18 {
+						c = And(c, Lt(p.arg, pow10(hi)))
+					}
+					if width < lo && lo > 1 {
+						c = And(c, Ge(p.arg, pow10(lo-1)))
+					}
+					conds = append(conds, c)
+					eqs = append(eqs, And(strIsDigits(g), Eq(strNum(g), p.arg)))
+				default:
+					okAlign = false
+				}
+				pi++
+			default:
+				okAlign = false
+			}
+			if !okAlign {
+				break
+			}
+		}
+		if !okAlign || pi != len(ps) {
+			continue
+		}
+		x.trusted["A-CODEC"] = true
+		x.job.regexUsed[ri.Name] = ri
+		x.ctx.assume(st, Implies(And(conds...), And(append([]*Term{reMatched(ri, out)}, eqs...)...)))
+	}
 }
 
 func (x *Exec) fmtInt(st *State, v *Term, flags string) *Term {
